@@ -27,6 +27,12 @@ func BuildMapCodec(p CodecBuilder, registry CodecRegistry, typ reflect.Type, tag
 		return nil, fmt.Errorf("type must be a map to build a map codec")
 	}
 
+	if typ.Elem().Kind() == reflect.Map {
+		// The value of a map entry is read and written through a pointer to
+		// the value, but map codecs expect the map pointer itself.
+		return nil, fmt.Errorf("maps with map values are not supported (%s)", typ)
+	}
+
 	keyCodec, err := p.CodecForTypeRegistry(registry, typ.Key(), "")
 	if err != nil {
 		return nil, fmt.Errorf("failed to find codec for map key %s. %w", typ.Key().Name(), err)
